@@ -196,18 +196,174 @@ def observe(real, addr, text):
     return ("ok", refs, names, fnames)
 
 
+QUICK_VIA_SLOTS = ("put-dst", "copy-src", "need-state", "need-goal", "bid-at", "do-via", "do-per", "do-via-per", "do-for",
+                   "do-from")
+
+
 def cases(tier):
     """enumeration order: inode configuration, placement, slot, form (simplest first)"""
     out = []
     for cname, cfg in icfgs(tier):
         for placement in PLACEMENTS:
             for slot in SLOTS:
+                if tier != "thorough" and cname != "I0" and slot[0] not in QUICK_VIA_SLOTS:
+                    continue      # quick: the remaining slots share parseIndirect/resolvePath with these; all slots at I0
                 for form in FORMS:
                     flags = form[3]
                     if slot[3] == "per" and "p" not in flags:
                         continue
                     out.append((cname, cfg, placement, slot, form))
     return out
+
+
+
+# ----------------------------------------------------------------------------- frame-name collision family
+#
+# Frame names are per framer.  A moot framer cloned as an auxiliary may have frames named like the main frame it hangs
+# under, or like a frame over that main frame.  The colliding frames carry different via inodes; inside the clone every
+# non-absolute, non-framer-relative reference climbs both chains.  Renaming ONE of two colliding frames (it is a
+# different entity from its namesake) must leave every path that does not go through it unchanged.
+
+PLACEHOLDERS = ("MF", "OF", "CF", "CO")         # main frame, frame over it, clone's inner frame, clone's outer frame
+DISTINCT = dict(MF="hra", OF="hrb", CF="hrd", CO="hre")
+PATTERNS = [
+    ("distinct", {}),
+    ("CF=MF", dict(CF="MF")),
+    ("CF=OF", dict(CF="OF")),
+    ("CO=MF", dict(CO="MF")),
+    ("CO=OF", dict(CO="OF")),
+    ("CF=MF,CO=OF", dict(CF="MF", CO="OF")),
+    ("CF=OF,CO=MF", dict(CF="OF", CO="MF")),
+]
+CVIAS = [("no-clone-via", "", ""), ("clone-me-via", " via me.ca", " via mm"), ("clone-rel-via", " via cv", " via me.m")]
+FSTYLES = [("rel", dict(OF="oo", MF="alpha", CO="gamma", CF="beta")),
+           ("me", dict(OF="oo", MF="me.alpha", CO="gamma", CF="me.beta"))]
+CLINES = [
+    ("put-plain",    "put 1 into pl.x"),
+    ("put-of-root",  "put 1 into x of root"),
+    ("put-of-me",    "put 1 into x of me"),
+    ("put-me",       "put 1 into me.x"),
+    ("need-plain",   "go me if pl.x == 1"),
+    ("copy-plain",   "copy pl.x into .k.dst"),
+    ("do-via",       "do lit as dxa at enter via cop"),
+    ("do-via-me",    "do lit as dxa at enter via me.cop"),
+    ("do-via-per",   "do lit as dxa at enter via cop per v pl.x"),
+    ("do-per",       "do lit as dxa at enter per v pl.x"),
+    ("do-per-me",    "do lit as dxa at enter per v me.x"),
+    ("do-for",       "do lit as dxa at enter for pl.x"),
+    ("put-of-frame", "put 1 into x of frame"),
+    ("put-of-frame-main", "put 1 into x of frame main"),
+    ("put-of-actor", "put 1 into x of actor"),
+]
+CPLACES = ("inner", "outer")
+CENTITIES = ["wfa", "wfb", "wfd", TAG, ACTOR]
+
+
+def collision_names(pattern):
+    n = dict(DISTINCT)
+    for k, src in pattern.items():
+        n[k] = DISTINCT[src]
+    return n
+
+
+def collision_program(names, cvia, fstyle, place, line):
+    cv, mv = cvia[1], cvia[2]
+    fv = fstyle[1]
+    src = ["house h", "init .k.src with value 1",
+           "framer wfa be active first %s via top" % names["MF"],
+           "frame %s via %s" % (names["OF"], fv["OF"]),
+           "frame %s in %s via %s" % (names["MF"], names["OF"], fv["MF"]),
+           "  aux wfd as tgc" + cv,
+           "framer wfb be active first hrc",
+           "frame hrc",
+           "framer wfd be moot first %s%s" % (names["CF"], mv),
+           "frame %s via %s" % (names["CO"], fv["CO"])]
+    if place == "outer":
+        src.append("  " + line)
+    src.append("frame %s in %s via %s" % (names["CF"], names["CO"], fv["CF"]))
+    if place == "inner":
+        src.append("  " + line)
+    src.append("")
+    return "\n".join(src)
+
+
+def collision_cases(tier):
+    out = []
+    cvias = CVIAS if tier == "thorough" else CVIAS[:2]
+    for pname, pattern in PATTERNS:
+        for cvia in cvias:
+            for fstyle in FSTYLES:
+                for place in CPLACES:
+                    for cl in CLINES:
+                        out.append((pname, pattern, cvia, fstyle, place, cl))
+    return out
+
+
+def check_collision(real, addr, p, case):
+    pname, pattern, cvia, fstyle, place, (lid, line) = case
+    names = collision_names(pattern)
+    text = collision_program(names, cvia, fstyle, place, line)
+    tag = "collide|%s|%s|%s" % (pname, lid, place)
+    where = "%s frame-via-%s" % (cvia[0], fstyle[0])
+    orig = observe(real, addr, text)
+    p.evaluations += 1
+    rep = dict(script=text, line=line, pattern=pname, names=names,
+               how="build with ioflo.base.building.Builder; read the Share/Node objects in the act's parms (actor attributes for "
+                   "doers) and house.store share names; frames of wfd (cloned as wfa_tgc) and of wfa are different entities "
+                   "even when they carry the same name")
+    if orig[0] != "ok":
+        p.violation("%s|refused" % tag, where, "`%s` in the clone could not be built: %s" % (line, orig[3]), rep)
+        p.outcome("collision family: refused")
+        return
+    p.nontrivial(tag + "|" + where)
+    p.outcome("collision family: built (%s)" % ("colliding names" if pattern else "distinct names"))
+    mine = sorted(set(v[0] for v in orig[1].values() if v[1] == line))
+    renamings = [("frame " + k, k) for k in PLACEHOLDERS] + [("name " + e, e) for e in CENTITIES]
+    for label, what in renamings:
+        if what in PLACEHOLDERS:
+            n2 = dict(names)
+            n2[what] = FRESH
+            old = names[what]
+            rtext = collision_program(n2, cvia, fstyle, place, line)
+        else:
+            old = what
+            rtext = rename_text(text, what, FRESH)
+        ren = observe(real, addr, rtext)
+        p.evaluations += 1
+        rrep = dict(rep, renamed_script=rtext, rename=[label, old, FRESH])
+        if ren[0] != "ok":
+            p.violation("%s|build-outcome-depends-on-name" % tag, "%s rename %s" % (where, label),
+                        "`%s`: builds, but after renaming %s (%s -> %s) the build is refused: %s" % (line, label, old, FRESH, ren[3]), rrep)
+            continue
+        # the renamed entity is the only bearer of FRESH: mapping FRESH back must give the original, whatever else is
+        # called `old`
+        back_refs = dict((k, rename_path(v[0], FRESH, old)) for k, v in ren[1].items())
+        orig_refs = dict((k, v[0]) for k, v in orig[1].items())
+        if back_refs != orig_refs:
+            diff = []
+            for k in sorted(set(back_refs) | set(orig_refs)):
+                if back_refs.get(k) != orig_refs.get(k):
+                    diff.append((k, orig_refs.get(k), ren[1].get(k, ("-",))[0]))
+            k, o, g = diff[0]
+            moved = FRESH not in g.split(" ", 1)[-1].replace("_", ".").split(".")
+            p.violation("%s|renamed-map-differs" % tag, "%s rename %s" % (where, label),
+                        "`%s`: renaming %s (%s -> %s): reference %s resolved to %s before and to %s after%s (%d references differ)" % (
+                            line, label, old, FRESH, k, o, g,
+                            " although it does not go through the renamed entity" if moved else "", len(diff)),
+                        dict(rrep, differences=diff[:8]))
+            continue
+        back_names = sorted(rename_path(n, FRESH, old) for n in ren[2])
+        if back_names != orig[2]:
+            a, b = set(orig[2]), set(back_names)
+            p.violation("%s|renamed-store-differs" % tag, "%s rename %s" % (where, label),
+                        "`%s`: renaming %s (%s -> %s): store shares only before %s, only after %s" % (
+                            line, label, old, FRESH, sorted(a - b)[:4], sorted(b - a)[:4]),
+                        dict(rrep, only_before=sorted(a - b), only_after=sorted(b - a)))
+            continue
+        touched = any(FRESH in v[0].replace("_", ".").split(".") for v in ren[1].values())
+        p.outcome("collision rename %s: %s" % (label.split()[0], "paths renamed" if touched else "no path affected"))
+    if (len(p.keys) % 97) == 1:
+        p.sample(dict(pattern=pname, line=line, place=place, via=where, resolved=mine[:3]))
 
 
 BASE = {}
@@ -320,13 +476,17 @@ CHUNK = 60
 
 
 def work(arg):
-    start, stop, tier = arg
+    kind, start, stop, tier = arg
     core.use_repo()
     from mc.flo import real, addr
     p = core.Part()
     real.build_text(program("top", {}, None), limit=60.0)
-    for case in cases(tier)[start:stop]:
-        check_case(real, addr, p, case)
+    if kind == "main":
+        for case in cases(tier)[start:stop]:
+            check_case(real, addr, p, case)
+    else:
+        for case in collision_cases(tier)[start:stop]:
+            check_collision(real, addr, p, case)
     return p
 
 
@@ -374,9 +534,17 @@ def replay(path):
             hit = case
             break
     if hit is None:
-        print("replay: no program of the family has this script")
-        return 2
-    check_case(real, addr, p, hit)
+        for case in collision_cases("thorough"):
+            pname, pattern, cvia, fstyle, place, (lid, line) = case
+            if collision_program(collision_names(pattern), cvia, fstyle, place, line) == script:
+                hit = case
+                break
+        if hit is None:
+            print("replay: no program of the family has this script")
+            return 2
+        check_collision(real, addr, p, hit)
+    else:
+        check_case(real, addr, p, hit)
     print(script)
     for g, ex, what, rep in p.violations:
         print("REPRODUCED %s|%s\n  %s" % (g, ex, what))
@@ -392,9 +560,13 @@ def run():
     selftest()
     ck = core.Check("C13", "exploration", META["technique"])
     cs = cases(core.TIER)
-    items = [(i, i + CHUNK, core.TIER) for i in range(0, len(cs), CHUNK)]
+    cc = collision_cases(core.TIER)
+    items = [("main", i, i + CHUNK, core.TIER) for i in range(0, len(cs), CHUNK)]
+    items += [("coll", i, i + CHUNK, core.TIER) for i in range(0, len(cc), CHUNK)]
     ck.merge(core.pmap(work, items))
-    ck.coverage_extra = dict(programs=len(cs), renamings_per_program=len(ENTITIES), forms=[f[0] for f in FORMS],
+    ck.coverage_extra = dict(programs=len(cs), renamings_per_program=len(ENTITIES), collision_programs=len(cc),
+                             collision_patterns=[x[0] for x in PATTERNS], collision_lines=[x[0] for x in CLINES],
+                             collision_renamings_per_program=len(PLACEHOLDERS) + len(CENTITIES), forms=[f[0] for f in FORMS],
                              slots=[s[0] for s in SLOTS], placements=PLACEMENTS, via_configurations=[c[0] for c in icfgs(core.TIER)])
     ck.assumptions = [
         "a named clone's framer name is <main framer>_<tag>; both components count as names the clone's framer-relative references "
@@ -409,7 +581,9 @@ def run():
     ]
     return ck.finish(
         rule="every (via configuration, placement, verb slot, reference form) program (%d) x the unrenamed build + 11 single "
-             "renamings; non-trivial = programs that build and carry a resolved reference" % len(cs),
+             "renamings, plus every frame-name collision program (%d: 7 name patterns x clone/moot via x frame via style x "
+             "placement x 15 lines) x 9 single renamings; non-trivial = programs that build and carry a resolved reference"
+             % (len(cs), len(cc)),
         exhaustive=True)
 
 
